@@ -1,0 +1,652 @@
+//go:build verif
+
+// Contracts for worker.go and worker_binder.go of package varmq, checked by /verif (vq). Comment-only file: no executable code.
+package varmq
+
+//@ package varmq
+
+// A worker's channel fields are nil (stopped) or open: closeChannels closes and nils them under the lock.
+//@ pred ChanOK(c ref) := c == nil || $open(c)
+
+// sendError / notifyToPullNextJobs never block: a non-blocking send that is taken iff the channel is non-nil and has room
+// (an unbuffered channel may also hand the value to a waiting receiver).
+//@ func worker.sendError
+//@   props C03 C07 C14
+//@   requires ChanOK(w.errorChan)
+//@   modifies $chan(w.errorChan)
+//@   ensures [offered] w.errorChan != nil && old($len(w.errorChan)) < $cap(w.errorChan) ==> $sent(w.errorChan) == old($sent(w.errorChan)) + 1
+//@                       && $chval(w.errorChan, old($sent(w.errorChan))) == err
+//@   ensures [atmost]  $sent(w.errorChan) == old($sent(w.errorChan)) || $sent(w.errorChan) == old($sent(w.errorChan)) + 1
+//@   ensures [nil]     w.errorChan == nil ==> $sent(w.errorChan) == old($sent(w.errorChan))
+
+// After notifyToPullNextJobs a wake-up token is pending on the signal channel (if there is one and it is buffered).
+//@ func worker.notifyToPullNextJobs
+//@   props C03 C09 C14
+//@   requires ChanOK(w.eventLoopSignal)
+//@   modifies $chan(w.eventLoopSignal)
+//@   ensures [pending] w.eventLoopSignal != nil && $cap(w.eventLoopSignal) >= 1 ==> $len(w.eventLoopSignal) >= 1
+//@   ensures [atmost]  $sent(w.eventLoopSignal) == old($sent(w.eventLoopSignal)) || $sent(w.eventLoopSignal) == old($sent(w.eventLoopSignal)) + 1
+
+// ---------------------------------------------------------------- ghost resources of a worker
+//@ type worker: ghost $disp Int
+//@ type worker: ghost $listeners Int
+//@ type worker: ghost $armed Int
+//@ type worker: ghost $reapers Int
+//@ type worker: ghost $nodes Int
+//@ type worker: ghost $dispatched Int
+//@ type worker: ghost $freed Int
+// $disp: dispatcher goroutines reading w.eventLoopSignal (they return when that channel is closed)
+// $listeners: context listeners on w.ctx that have not fired yet; $armed: asynchronous Stop() calls triggered by cancel() and not yet run
+// $reapers: live idle-worker reapers; $nodes: pool goroutines started; $dispatched: jobs handed to a pool node; $freed: nodes given back
+
+// Idle list: a ring (RI_List) of detached-from-nothing nodes whose channels are open.
+//@ pred PoolOK(w *worker) := w.pool != nil && w.pool.List != nil && @RI_List(w.pool.List)
+//@      && (forall n *linkedlist.Node[pool.Node[JobType]] {w.pool.List.$in[n]} :: w.pool.List.$in[n] && n != $addr(w.pool.List.root) ==> $alloc(n) && n.Value.ch != nil && $open(n.Value.ch) && $cap(n.Value.ch) >= 1)
+//@ pred NodeFree(n *linkedlist.Node[pool.Node[JobType]]) := n != nil && $alloc(n) && n.next == nil && n.prev == nil && n.Value.ch != nil && $open(n.Value.ch) && $cap(n.Value.ch) >= 1
+
+// Worker invariant, per lifecycle state (C14): what "Running" must mean for the worker to be able to process jobs.
+//@ pred RI_worker(w *worker) := w != nil && PoolOK(w) && QM(w) && w.metrics != nil && w.waiters != nil && w.workerFunc != nil
+//@      && 0 <= w.status && w.status <= stopped && w.concurrency >= 1 && w.$disp >= 0 && w.$armed >= 0 && w.$listeners >= 0
+//@      && (w.status == initiated ==> w.eventLoopSignal != nil && $open(w.eventLoopSignal) && $cap(w.eventLoopSignal) >= 1 && w.errorChan != nil && $open(w.errorChan)
+//@                                     && w.$disp == 0 && w.$listeners == 0 && w.pool.List.len == 0 && w.curProcessing == 0)
+//@      && ((w.status == running || w.status == paused) ==> w.eventLoopSignal != nil && $open(w.eventLoopSignal) && $cap(w.eventLoopSignal) >= 1
+//@                                     && w.errorChan != nil && $open(w.errorChan) && w.$disp == 1 && w.$listeners == (w.ctx != nil ? 1 : 0))
+//@      && (w.status == stopped ==> w.eventLoopSignal == nil && w.errorChan == nil && w.$disp == 0 && w.pool.List.len == 0 && w.$listeners == 0 && w.curProcessing == 0)
+//@      && ((w.ctx != nil) <==> (w.cancel != nil)) && ((w.ctx != nil) <==> (w.Configs.ctx != nil)) && (w.ctx != nil ==> $parentOf(w.ctx) == w.Configs.ctx)
+//@      && (w.eventLoopSignal == nil || w.eventLoopSignal != w.errorChan)
+//@      && (w.$armed > 0 ==> w.status == stopped) && (w.ctx == nil ==> w.$armed == 0)
+
+// ---------------------------------------------------------------- small helpers
+//@ func worker.configs
+//@   props C14
+//@   ensures result == w.Configs
+
+//@ func worker.Metrics
+//@   props C17
+//@   ensures result == w.metrics
+
+//@ func worker.Errs
+//@   props C03
+//@   ensures result == w.errorChan
+
+//@ func worker.Context
+//@   props C14
+//@   ensures result == w.ctx
+
+// numMinIdleWorkers = max(concurrency * ratio / 100, 1), computed without overflow.
+//@ func worker.numMinIdleWorkers
+//@   props C18
+//@   requires w.Configs.minIdleWorkerRatio <= 100
+//@   ensures [value] result == max((w.concurrency * w.Configs.minIdleWorkerRatio) / 100, 1)
+//@   ensures [min]   result >= 1
+
+// releaseWaiters: when nothing is in flight any more the barrier waiters are woken -- if paused, or if running with nothing pending.
+//@ func worker.releaseWaiters
+//@   props C06
+//@   requires w.waiters != nil && RI_Manager($addr(w.queues.Manager))
+//@   requires forall i int :: 0 <= i && i < len(w.queues.Manager.items) ==> $lenOf(w.queues.Manager.items[i]) >= 0
+//@   requires forall k int {@sumLen(w.queues.Manager.items, k)} :: 0 <= k && k <= len(w.queues.Manager.items) ==> @sumLen(w.queues.Manager.items, k) <= MaxInt
+//@   modifies $broadcasts[w.waiters]
+//@   ensures [busy]  processing != 0 ==> $broadcasts[w.waiters] == old($broadcasts[w.waiters])
+//@   ensures [wake]  processing == 0 && (w.status == paused || (w.status == running && @sumLen(w.queues.Manager.items, len(w.queues.Manager.items)) == 0)) ==> $broadcasts[w.waiters] == old($broadcasts[w.waiters]) + 1
+//@   ensures [quiet] processing == 0 && !(w.status == paused || (w.status == running && @sumLen(w.queues.Manager.items, len(w.queues.Manager.items)) == 0)) ==> $broadcasts[w.waiters] == old($broadcasts[w.waiters])
+
+// closeChannels: each non-nil channel is closed exactly once and the field set to nil; the dispatcher on the old signal channel ends.
+//@ func worker.closeChannels
+//@   props C14 C18 C10
+//@   requires ChanOK(w.eventLoopSignal) && ChanOK(w.errorChan) && (w.eventLoopSignal == nil || w.eventLoopSignal != w.errorChan)
+//@   modifies w.eventLoopSignal, w.errorChan, $open(w.eventLoopSignal), $open(w.errorChan), w.$disp
+//@   ensures [nil]    w.eventLoopSignal == nil && w.errorChan == nil && w.$disp == 0
+//@   ensures [closed] (old(w.eventLoopSignal) != nil ==> !$open(old(w.eventLoopSignal))) && (old(w.errorChan) != nil ==> !$open(old(w.errorChan)))
+//@   ghost at return: w.$disp := 0
+
+//@ func worker.stopTickers
+//@   props C18
+//@   requires forall t ref {$tickerStopped[t]} :: $tickerStopped[t] >= 0
+//@   modifies w.tickers, $tickerStopped, $alloc
+//@   ensures [emptied] len(w.tickers) == 0
+//@   ensures [stopped] forall k int :: 0 <= k && k < old(len(w.tickers)) ==> $tickerStopped[old(w.tickers[k])] >= 1
+//@   loop 1: invariant 0 <= rangeindex + 1 && rangeindex + 1 <= len(w.tickers) && w.tickers == old(w.tickers)
+//@            && (forall k int :: 0 <= k && k <= rangeindex ==> $tickerStopped[w.tickers[k]] >= 1) && (forall t ref {$tickerStopped[t]} :: $tickerStopped[t] >= old($tickerStopped)[t])
+
+// ---------------------------------------------------------------- goroutine sites
+// One dispatcher is started on the current signal channel (which must exist).
+//@ func worker.goEventLoop
+//@   props C02 C14 C18
+//@   requires w.eventLoopSignal != nil
+//@   modifies $alloc, $spawned["varmq.worker.goEventLoop$1"], w.$disp
+//@   ensures [one] w.$disp == old(w.$disp) + 1 && $spawned["varmq.worker.goEventLoop$1"] == old($spawned["varmq.worker.goEventLoop$1"]) + 1
+//@   ghost at go varmq.worker.goEventLoop$1: w.$disp := w.$disp + 1
+
+// No idle expiry configured: nothing. Otherwise one ticker is recorded and one reaper goroutine started.
+//@ func worker.goRemoveIdleWorkers
+//@   props C18
+//@   requires w.Configs.idleWorkerExpiryDuration >= 0 && len(w.tickers) < MaxInt
+//@   modifies $alloc, $spawned["varmq.worker.goRemoveIdleWorkers$1"], w.$reapers, w.tickers, w.tickers[**], key G:$tickersLive
+//@   ensures [off] w.Configs.idleWorkerExpiryDuration == 0 ==> w.$reapers == old(w.$reapers) && len(w.tickers) == old(len(w.tickers))
+//@   ensures [on]  w.Configs.idleWorkerExpiryDuration != 0 ==> w.$reapers == old(w.$reapers) + 1 && len(w.tickers) == old(len(w.tickers)) + 1
+//@   ghost at go varmq.worker.goRemoveIdleWorkers$1: w.$reapers := w.$reapers + 1
+
+// A listener is started on the current context, if there is one.
+//@ func worker.goListenToContext
+//@   props C14 C18
+//@   modifies $alloc, $spawned["varmq.worker.goListenToContext$1"], w.$listeners
+//@   ensures [none] w.ctx == nil ==> w.$listeners == old(w.$listeners)
+//@   ensures [one]  w.ctx != nil ==> w.$listeners == old(w.$listeners) + 1
+//@   ghost at go varmq.worker.goListenToContext$1: w.$listeners := w.$listeners + 1
+
+// initPoolNode takes a node from the cache, starts its goroutine and hands it to the caller (it is in no list).
+//@ func worker.initPoolNode
+//@   props C01 C18
+//@   requires w.pool != nil
+//@   modifies $alloc, $spawned["pool.Node.Serve"], w.$nodes
+//@   ensures [node]  NodeFree(result)
+//@   ensures [count] w.$nodes == old(w.$nodes) + 1
+//@   ghost at go pool.Node.Serve: w.$nodes := w.$nodes + 1
+
+// ---------------------------------------------------------------- the pool
+// freePoolNode: the node (owned by the caller, in no list) is kept idle iff the backlog is at least the limit, or expiry is configured, or
+// the idle list is below its minimum; otherwise it is stopped and cached. It never retires the last idle node.
+//@ func worker.freePoolNode
+//@   props C18 C01 C03
+//@   requires PoolOK(w) && w.pool.List.len < MaxUint32 && QM(w) && NodeFree(node) && w.Configs.minIdleWorkerRatio <= 100 && w.Configs.idleWorkerExpiryDuration >= 0
+//@   requires forall i int :: 0 <= i && i < len(w.queues.Manager.items) ==> $lenOf(w.queues.Manager.items[i]) >= 0
+//@   requires forall k int {@sumLen(w.queues.Manager.items, k)} :: 0 <= k && k <= len(w.queues.Manager.items) ==> @sumLen(w.queues.Manager.items, k) <= MaxInt
+//@   requires w.concurrency * w.Configs.minIdleWorkerRatio <= MaxUint32
+//@   modifies linkedlist.Node.next, linkedlist.Node.prev, w.pool.List.len, w.pool.List.$at, w.pool.List.$pos, w.pool.List.$in, node.Value.lastUsed, $alloc, $chan(node.Value.ch), key G:$poolputs
+//@   ensures [pool]    PoolOK(w)
+//@   ensures [kept]    (@sumLen(w.queues.Manager.items, len(w.queues.Manager.items)) >= w.concurrency || w.Configs.idleWorkerExpiryDuration > 0 || old(w.pool.List.len) < max((w.concurrency * w.Configs.minIdleWorkerRatio) / 100, 1))
+//@                       ==> w.pool.List.len == old(w.pool.List.len) + 1 && w.pool.List.$in[node] && $sent(node.Value.ch) == old($sent(node.Value.ch))
+//@   ensures [retired] !(@sumLen(w.queues.Manager.items, len(w.queues.Manager.items)) >= w.concurrency || w.Configs.idleWorkerExpiryDuration > 0 || old(w.pool.List.len) < max((w.concurrency * w.Configs.minIdleWorkerRatio) / 100, 1))
+//@                       ==> w.pool.List.len == old(w.pool.List.len) && !w.pool.List.$in[node] && $sent(node.Value.ch) == old($sent(node.Value.ch)) + 1
+//@   ensures [notlast] old(w.pool.List.len) == 0 ==> w.pool.List.len == 1
+
+// sendToNextChannel: the job goes to exactly one pool node: the idle node popped from the list, or a new one only if the list was empty.
+//@ func worker.sendToNextChannel
+//@   props C01 C03 C18
+//@   requires PoolOK(w)
+//@   modifies linkedlist.Node.next, linkedlist.Node.prev, w.pool.List.len, w.pool.List.$in, $alloc, $spawned["pool.Node.Serve"], w.$nodes, w.$dispatched, key CH:sent<, key CH:rcvd<, key CHV:<
+//@   ensures [one]   w.$dispatched == old(w.$dispatched) + 1
+//@   ensures [pool]  PoolOK(w) && (old(w.pool.List.len) > 0 ==> w.pool.List.len == old(w.pool.List.len) - 1 && w.$nodes == old(w.$nodes))
+//@   ensures [grow]  old(w.pool.List.len) == 0 ==> w.pool.List.len == 0 && w.$nodes == old(w.$nodes) + 1
+//@   ghost after call pool.Node.Send: w.$dispatched := w.$dispatched + 1
+
+// stopAndRemoveAllWorkers: the idle list is emptied; every node that was idle gets the stop payload and goes back to the cache.
+//@ func worker.stopAndRemoveAllWorkers
+//@   props C18 C14
+//@   requires PoolOK(w)
+//@   modifies linkedlist.Node.next, linkedlist.Node.prev, w.pool.List.len, w.pool.List.$at, w.pool.List.$pos, w.pool.List.$in, $alloc, key CH:sent<, key CH:rcvd<, key CHV:<, key G:$poolputs
+//@   ensures [empty] w.pool.List.len == 0 && PoolOK(w)
+//@   loop 1: invariant [range] 0 <= rangeindex + 1 && rangeindex + 1 <= len($ranged) && PoolOK(w) && w.pool.List.len == len($ranged) - (rangeindex + 1)
+//@   loop 1: invariant [rest]  forall m int :: rangeindex + 1 <= m && m < len($ranged) ==> $ranged[m] == w.pool.List.$at[m - rangeindex]
+
+// ---------------------------------------------------------------- the dispatch step
+// processNextJob: at most one entry is taken from one queue. On an error nothing is dispatched and the in-flight count is unchanged;
+// otherwise the entry's job is either skipped because it is already closed (nothing dispatched) or marked processing, given the
+// acknowledgement id of this delivery and handed to exactly one pool node -- after all of that bookkeeping.
+//@ func worker.processNextJob
+//@   props C01 C02 C09 C10 C11 C12 C16
+//@   requires PoolOK(w) && QM(w) && w.curProcessing < MaxUint32
+//@   requires forall i int :: 0 <= i && i < len(w.queues.Manager.items) ==> $lenOf(w.queues.Manager.items[i]) >= 0 && w.queues.Manager.items[i] != nil
+//@   modifies w.queues.Manager.roundRobinIndex, $lenOf, $deq, w.curProcessing, $jstatus, $jackid, $jqueue, $alloc, $spawned["pool.Node.Serve"], w.$nodes, w.$dispatched,
+//@            linkedlist.Node.next, linkedlist.Node.prev, w.pool.List.len, w.pool.List.$in, key CH:sent<, key CH:rcvd<, key CHV:<
+//@   ensures [error]   result != nil ==> w.curProcessing == old(w.curProcessing) && w.$dispatched == old(w.$dispatched)
+//@   ensures [step]    result == nil ==> (w.$dispatched == old(w.$dispatched) + 1 && w.curProcessing == old(w.curProcessing) + 1)
+//@                                    || (w.$dispatched == old(w.$dispatched) && w.curProcessing == old(w.curProcessing))
+//@   ensures [taken]   result == nil ==> exists q ref :: $deq(q) == old($deq(q)) + 1
+//@   ensures [atmost]  forall q ref {$deq(q)} :: $deq(q) == old($deq(q)) || $deq(q) == old($deq(q)) + 1
+//@   ensures [single]  forall p ref, q ref {$deq(p), $deq(q)} :: $deq(p) != old($deq(p)) && $deq(q) != old($deq(q)) ==> p == q
+//@   ensures [pool]    PoolOK(w) && QM(w)
+//@   ensures [lens]    forall q ref {$lenOf(q)} :: $lenOf(q) == old($lenOf(q)) || ($lenOf(q) == old($lenOf(q)) - 1 && old($lenOf(q)) > 0)
+//@   ensures [queues]  w.queues.Manager.items == old(w.queues.Manager.items) && (forall i int :: 0 <= i && i < len(w.queues.Manager.items) ==> w.queues.Manager.items[i] == old(w.queues.Manager.items[i]))
+//@   assert [not-closed]      before call invoke.changeStatus: $jstatus(j) != closed
+//@   assert [bookkeeping]     before call varmq.worker.sendToNextChannel: $jstatus(j) == processing && $jackid(j) == ackId && w.curProcessing == old(w.curProcessing) + 1
+//@   assert [ackid-of-this]   before call varmq.worker.sendToNextChannel: $impl(IAcknowledgeable, queue) || ackId == ""
+
+// ---------------------------------------------------------------- the pool goroutine's body (one invocation per dispatched job)
+// Order of effects: the worker function runs (exactly once, with this job) -> status finished -> Close (acknowledges, releases the handle's
+// waiters) -> the node is given back -> the in-flight count drops -> barrier waiters are released if appropriate -> Completed+1 -> the
+// dispatcher is signalled. The signal comes after the decrement (otherwise the dispatcher may see no free slot and sleep: lost wake-up).
+//@ func worker.initPoolNode$1
+//@   props C01 C03 C05 C06 C11 C16 C17 C18
+//@   requires $deref(w) != nil && PoolOK($deref(w)) && QM($deref(w)) && $deref(w).pool.List.len < MaxUint32 && NodeFree($deref(node)) && $deref(w).metrics != nil && $deref(w).waiters != nil
+//@   requires $deref(w).workerFunc != nil && $deref(w).curProcessing >= 1 && ChanOK($deref(w).errorChan) && ChanOK($deref(w).eventLoopSignal)
+//@   requires $deref(w).Configs.minIdleWorkerRatio <= 100 && $deref(w).Configs.idleWorkerExpiryDuration >= 0 && $deref(w).concurrency * $deref(w).Configs.minIdleWorkerRatio <= MaxUint32
+//@   requires forall i int :: 0 <= i && i < len($deref(w).queues.Manager.items) ==> $lenOf($deref(w).queues.Manager.items[i]) >= 0
+//@   requires forall k int {@sumLen($deref(w).queues.Manager.items, k)} :: 0 <= k && k <= len($deref(w).queues.Manager.items) ==> @sumLen($deref(w).queues.Manager.items, k) <= MaxInt
+//@   modifies $usercalls, $jstatus, $jclosecalls, $acks, $lastAck, $chan($deref(w).errorChan), $chan($deref(w).eventLoopSignal), $deref(w).curProcessing, $broadcasts[$deref(w).waiters],
+//@            $completed($deref(w).metrics), $deref(w).$freed, $alloc, key G:$poolputs, $chan($deref(node).Value.ch), $deref(node).Value.lastUsed,
+//@            linkedlist.Node.next, linkedlist.Node.prev, $deref(w).pool.List.len, $deref(w).pool.List.$at, $deref(w).pool.List.$pos, $deref(w).pool.List.$in
+//@   ensures [ran-once]   $usercalls == old($usercalls) + 1
+//@   ensures [closed]     $jclosecalls(j) == old($jclosecalls(j)) + 1
+//@   ensures [inflight]   $deref(w).curProcessing == old($deref(w).curProcessing) - 1
+//@   ensures [completed]  $completed($deref(w).metrics) == old($completed($deref(w).metrics)) + 1
+//@   ensures [freed]      $deref(w).$freed == old($deref(w).$freed) + 1 && PoolOK($deref(w))
+//@   ensures [signalled]  $deref(w).eventLoopSignal != nil && $cap($deref(w).eventLoopSignal) >= 1 ==> $len($deref(w).eventLoopSignal) >= 1
+//@   ghost after call varmq.worker.freePoolNode: $deref(w).$freed := $deref(w).$freed + 1
+//@   assert [finished-after-run]  before call invoke.Close: $usercalls == old($usercalls) + 1 && $jstatus(j) == finished
+//@   assert [free-before-dec]     before call sync/atomic.Uint32.Add: $deref(w).$freed == old($deref(w).$freed) + 1 && $jclosecalls(j) == old($jclosecalls(j)) + 1
+//@   assert [release-after-dec]   before call varmq.worker.releaseWaiters: $deref(w).curProcessing == old($deref(w).curProcessing) - 1
+//@   assert [signal-after-dec]    before call varmq.worker.notifyToPullNextJobs: $deref(w).curProcessing == old($deref(w).curProcessing) - 1 && $deref(w).$freed == old($deref(w).$freed) + 1
+
+// ---------------------------------------------------------------- the dispatcher
+// goEventLoop$1: after every wake-up, jobs are dispatched while the worker is running, fewer than `concurrency` are in flight and jobs are
+// pending. Every dispatch decision re-reads status, in-flight count, limit and backlog (nothing is cached across a dispatch), errors are
+// reported without blocking and do not end the loop; the goroutine returns only when its signal channel is closed.
+//@ func worker.goEventLoop$1
+//@   props C02 C03 C09 C11 C12
+//@   requires signal != nil && $deref(w) != nil && PoolOK($deref(w)) && QM($deref(w)) && ChanOK($deref(w).errorChan)
+//@   requires forall i int :: 0 <= i && i < len($deref(w).queues.Manager.items) ==> $deref(w).queues.Manager.items[i] != nil
+//@   modifies $chan(signal), $open(signal), $chan($deref(w).errorChan), $deref(w).queues.Manager.roundRobinIndex, $lenOf, $deq, $deref(w).curProcessing, $jstatus, $jackid, $jqueue, $alloc,
+//@            $spawned["pool.Node.Serve"], $deref(w).$nodes, $deref(w).$dispatched, linkedlist.Node.next, linkedlist.Node.prev, $deref(w).pool.List.len, $deref(w).pool.List.$in,
+//@            key CH:sent<, key CH:rcvd<, key CHV:<
+//@   requires forall q ref {$lenOf(q)} :: $lenOf(q) >= 0
+//@   ensures [exit] !$open(signal)
+//@   ghost before call helpers.Manager.Len: assume forall k int {@sumLen($deref(w).queues.Manager.items, k)} :: 0 <= k && k <= len($deref(w).queues.Manager.items) ==> @sumLen($deref(w).queues.Manager.items, k) <= MaxInt
+//@   loop 1: invariant [outer] PoolOK($deref(w)) && QM($deref(w)) && ChanOK($deref(w).errorChan) && (forall q ref {$lenOf(q)} :: $lenOf(q) >= 0) && (forall i int :: 0 <= i && i < len($deref(w).queues.Manager.items) ==> $deref(w).queues.Manager.items[i] != nil)
+//@   loop 2: invariant [inner] PoolOK($deref(w)) && QM($deref(w)) && ChanOK($deref(w).errorChan) && (forall q ref {$lenOf(q)} :: $lenOf(q) >= 0) && (forall i int :: 0 <= i && i < len($deref(w).queues.Manager.items) ==> $deref(w).queues.Manager.items[i] != nil)
+//@   ghost entry: $sfresh := false
+//@   ghost entry: $cfresh := false
+//@   ghost entry: $pfresh := false
+//@   ghost after load status: $sfresh := true
+//@   ghost after load concurrency: $cfresh := true
+//@   ghost after load curProcessing: $pfresh := true
+//@   assert [guard]       before call varmq.worker.processNextJob: $deref(w).status == running && $deref(w).curProcessing < $deref(w).concurrency
+//@                          && @sumLen($deref(w).queues.Manager.items, len($deref(w).queues.Manager.items)) > 0
+//@   assert [guard-fresh] before call varmq.worker.processNextJob: $sfresh && $cfresh && $pfresh
+//@   assert [sleep-only-when-idle] at backedge loop1: !($deref(w).status == running && $deref(w).curProcessing < $deref(w).concurrency
+//@                          && @sumLen($deref(w).queues.Manager.items, len($deref(w).queues.Manager.items)) > 0)
+//@   ghost after call varmq.worker.processNextJob: $sfresh := false
+//@   ghost after call varmq.worker.processNextJob: $cfresh := false
+//@   ghost after call varmq.worker.processNextJob: $pfresh := false
+
+// ---------------------------------------------------------------- barriers
+// The wait predicate (true = keep waiting): running: something pending or in flight; paused/stopped: something in flight; else false.
+//@ func worker.WaitUntilFinished$1
+//@   props C06
+//@   requires $deref(w) != nil && RI_Manager($addr($deref(w).queues.Manager)) && (forall q ref {$lenOf(q)} :: $lenOf(q) >= 0)
+//@   ensures [running] $deref(w).status == running ==> result == (@sumLen($deref(w).queues.Manager.items, len($deref(w).queues.Manager.items)) > 0 || $deref(w).curProcessing > 0)
+//@   ensures [parked]  ($deref(w).status == paused || $deref(w).status == stopped) ==> result == ($deref(w).curProcessing > 0)
+//@   ensures [other]   $deref(w).status == initiated ==> !result
+//@   ghost before call helpers.Manager.Len: assume forall k int {@sumLen($deref(w).queues.Manager.items, k)} :: 0 <= k && k <= len($deref(w).queues.Manager.items) ==> @sumLen($deref(w).queues.Manager.items, k) <= MaxInt
+
+// WaitUntilFinished returns only when the wait predicate is false. While it is parked other goroutines may complete jobs, dispatch jobs and
+// accept submissions (the `modifies` list is what they may change; `rely` is what they preserve); lifecycle calls are not interleaved (SEQ).
+//@ func worker.WaitUntilFinished
+//@   props C06 C09 C14
+//@   requires w != nil && w.waiters != nil && PoolOK(w) && QM(w) && (forall q ref {$lenOf(q)} :: $lenOf(q) >= 0)
+//@   modifies w.curProcessing, $lenOf, $alloc, linkedlist.Node.next, linkedlist.Node.prev, w.pool.List.len, w.pool.List.$at, w.pool.List.$pos, w.pool.List.$in, key CH:sent<, key CH:rcvd<, key CHV:<, w.$nodes, w.$dispatched, w.$freed
+//@   rely  PoolOK(w) && (forall q ref {$lenOf(q)} :: $lenOf(q) >= 0)
+//@   ensures [barrier-running] w.status == running ==> @sumLen(w.queues.Manager.items, len(w.queues.Manager.items)) <= 0 && w.curProcessing == 0
+//@   ensures [barrier-parked]  (w.status == paused || w.status == stopped) ==> w.curProcessing == 0
+//@   ensures [kept]            PoolOK(w) && (forall q ref {$lenOf(q)} :: $lenOf(q) >= 0)
+//@   ensures [noop]            (w.status == initiated || ((w.status == paused || w.status == stopped) && old(w.curProcessing) == 0)) ==> w.curProcessing == old(w.curProcessing) && w.pool.List.len == old(w.pool.List.len)
+//@   loop 1: invariant PoolOK(w) && (forall q ref {$lenOf(q)} :: $lenOf(q) >= 0)
+//@   loop 1: invariant [noop-initiated] w.status == initiated ==> w.curProcessing == old(w.curProcessing) && w.pool.List.len == old(w.pool.List.len)
+//@   loop 1: invariant [noop-parked]    (w.status == paused || w.status == stopped) && old(w.curProcessing) == 0 ==> w.curProcessing == 0 && w.pool.List.len == old(w.pool.List.len)
+
+// ---------------------------------------------------------------- lifecycle (C14): every call from every invariant state
+// start: from Running / Paused / Stopped it refuses and changes nothing; from Initiated it creates exactly one dispatcher, the reaper (iff
+// idle expiry), the context listener (iff a context), the first idle pool node, stores Running and raises the initial signal.
+//@ func worker.start
+//@   props C14 C02 C03 C18
+//@   requires RI_worker(w) && w.Configs.idleWorkerExpiryDuration >= 0 && len(w.tickers) < MaxInt
+//@   modifies w.status, $alloc, $spawned, w.$disp, w.$reapers, w.$listeners, w.$nodes, w.tickers, w.tickers[**], key G:$tickersLive, $chan(w.eventLoopSignal),
+//@            linkedlist.Node.next, linkedlist.Node.prev, w.pool.List.len, w.pool.List.$at, w.pool.List.$pos, w.pool.List.$in
+//@   ensures [running]   old(w.status) == running ==> result == ErrRunningWorker && w.status == running && w.$disp == old(w.$disp) && w.$nodes == old(w.$nodes) && w.pool.List.len == old(w.pool.List.len)
+//@   ensures [parked]    (old(w.status) == paused || old(w.status) == stopped) ==> result == ErrNotRunningWorker && w.status == old(w.status) && w.$disp == old(w.$disp) && w.$nodes == old(w.$nodes) && w.pool.List.len == old(w.pool.List.len)
+//@   ensures [started]   old(w.status) == initiated ==> result == nil && w.status == running && w.$disp == 1 && w.pool.List.len == 1 && $len(w.eventLoopSignal) >= 1
+//@   ensures [resources] old(w.status) == initiated ==> w.$reapers == old(w.$reapers) + (w.Configs.idleWorkerExpiryDuration != 0 ? 1 : 0) && w.$nodes == old(w.$nodes) + 1
+//@   ensures [ri]        RI_worker(w)
+
+//@ func worker.Pause
+//@   props C14 C09
+//@   modifies w.status
+//@   ensures [running]   old(w.status) == running ==> result == nil && w.status == paused
+//@   ensures [parked]    (old(w.status) == paused || old(w.status) == stopped) ==> result == nil && w.status == old(w.status)
+//@   ensures [initiated] old(w.status) == initiated ==> result == ErrNotRunningWorker && w.status == initiated
+
+//@ func worker.PauseAndWait
+//@   props C14 C09 C06
+//@   requires w != nil && w.waiters != nil && PoolOK(w) && QM(w) && (forall q ref {$lenOf(q)} :: $lenOf(q) >= 0) && 0 <= w.status && w.status <= stopped
+//@   modifies w.status, w.curProcessing, $lenOf, $alloc, linkedlist.Node.next, linkedlist.Node.prev, w.pool.List.len, w.pool.List.$at, w.pool.List.$pos, w.pool.List.$in, key CH:sent<, key CH:rcvd<, key CHV:<, w.$nodes, w.$dispatched, w.$freed
+//@   ensures [running]   old(w.status) == running ==> result == nil && w.status == paused && w.curProcessing == 0
+//@   ensures [parked]    (old(w.status) == paused || old(w.status) == stopped) ==> result == nil && w.status == old(w.status) && w.curProcessing == 0
+//@   ensures [initiated] old(w.status) == initiated ==> result == ErrNotRunningWorker && w.status == initiated && w.curProcessing == old(w.curProcessing)
+//@   ensures [kept]      PoolOK(w) && (forall q ref {$lenOf(q)} :: $lenOf(q) >= 0)
+
+// Resume: Paused -> Running (and the dispatcher is signalled); Initiated -> start(); Running -> ErrRunningWorker; Stopped -> ErrNotRunningWorker.
+// It never creates a second dispatcher.
+//@ func worker.Resume
+//@   props C14 C09 C02 C03
+//@   requires RI_worker(w) && w.Configs.idleWorkerExpiryDuration >= 0 && len(w.tickers) < MaxInt
+//@   modifies w.status, $alloc, $spawned, w.$disp, w.$reapers, w.$listeners, w.$nodes, w.tickers, w.tickers[**], key G:$tickersLive, $chan(w.eventLoopSignal),
+//@            linkedlist.Node.next, linkedlist.Node.prev, w.pool.List.len, w.pool.List.$at, w.pool.List.$pos, w.pool.List.$in
+//@   ensures [stopped]   old(w.status) == stopped ==> result == ErrNotRunningWorker && w.status == stopped
+//@   ensures [running]   old(w.status) == running ==> result == ErrRunningWorker && w.status == running
+//@   ensures [paused]    old(w.status) == paused ==> result == nil && w.status == running && $len(w.eventLoopSignal) >= 1 && w.$disp == old(w.$disp) && w.$nodes == old(w.$nodes)
+//@   ensures [initiated] old(w.status) == initiated ==> result == nil && w.status == running && w.$disp == 1
+//@   ensures [ri]        RI_worker(w)
+
+// Stop: Running/Paused -> Stopped after waiting for the in-flight jobs; Stopped -> nil; Initiated -> ErrNotRunningWorker. Afterwards the
+// channels are closed and nil, no dispatcher, no ticker and no idle pool node is left and the context (if any) is cancelled: every
+// goroutine the worker started has been told to exit.
+//@ func worker.Stop
+//@   props C14 C18 C09 C06
+//@   requires RI_worker(w) && (forall q ref {$lenOf(q)} :: $lenOf(q) >= 0) && (forall t ref {$tickerStopped[t]} :: $tickerStopped[t] >= 0)
+//@   modifies w.status, w.curProcessing, $lenOf, $alloc, linkedlist.Node.next, linkedlist.Node.prev, w.pool.List.len, w.pool.List.$at, w.pool.List.$pos, w.pool.List.$in,
+//@            key CH:sent<, key CH:rcvd<, key CHV:<, w.$nodes, w.$dispatched, w.$freed, w.tickers, $tickerStopped, w.eventLoopSignal, w.errorChan,
+//@            $open(w.eventLoopSignal), $open(w.errorChan), w.$disp, key G:$poolputs, $usercalls, w.$listeners, w.$armed
+//@   ensures [stopped]   old(w.status) == stopped ==> result == nil && w.status == stopped
+//@   ensures [initiated] old(w.status) == initiated ==> result == ErrNotRunningWorker && w.status == initiated
+//@   ensures [stops]     (old(w.status) == running || old(w.status) == paused) ==> result == nil && w.status == stopped && w.curProcessing == 0
+//@                          && w.eventLoopSignal == nil && w.errorChan == nil && w.$disp == 0 && w.pool.List.len == 0 && len(w.tickers) == 0
+//@   ensures [reapers]   (old(w.status) == running || old(w.status) == paused) ==> w.$reapers == 0
+//@   ensures [ri]        RI_worker(w)
+//@   ghost after call funcvalue when w.$listeners > 0: w.$armed := w.$armed + w.$listeners
+//@   ghost after call funcvalue: w.$listeners := 0
+
+//@ func worker.WaitAndStop
+//@   props C14 C06
+//@   requires RI_worker(w) && (forall q ref {$lenOf(q)} :: $lenOf(q) >= 0) && (forall t ref {$tickerStopped[t]} :: $tickerStopped[t] >= 0)
+//@   modifies w.status, w.curProcessing, $lenOf, $alloc, linkedlist.Node.next, linkedlist.Node.prev, w.pool.List.len, w.pool.List.$at, w.pool.List.$pos, w.pool.List.$in,
+//@            key CH:sent<, key CH:rcvd<, key CHV:<, w.$nodes, w.$dispatched, w.$freed, w.tickers, $tickerStopped, w.eventLoopSignal, w.errorChan,
+//@            $open(w.eventLoopSignal), $open(w.errorChan), w.$disp, key G:$poolputs, $usercalls, w.$listeners, w.$armed
+//@   ensures [stopped]   old(w.status) == stopped ==> result == nil && w.status == stopped
+//@   ensures [initiated] old(w.status) == initiated ==> result == ErrNotRunningWorker && w.status == initiated
+//@   ensures [stops]     (old(w.status) == running || old(w.status) == paused) ==> result == nil && w.status == stopped && w.curProcessing == 0
+//@   ensures [ri]        RI_worker(w)
+
+// Restart: from any state the worker ends up Running with fresh channels, exactly one dispatcher, a fresh context (if configured) whose
+// listener is the only one, and nothing left armed that could stop it behind the caller's back.
+//@ func worker.Restart
+//@   props C14 C18 C02 C09
+//@   requires RI_worker(w) && (forall q ref {$lenOf(q)} :: $lenOf(q) >= 0) && w.Configs.idleWorkerExpiryDuration >= 0 && len(w.tickers) < MaxInt
+//@   modifies w.status, w.curProcessing, $lenOf, $alloc, linkedlist.Node.next, linkedlist.Node.prev, w.pool.List.len, w.pool.List.$at, w.pool.List.$pos, w.pool.List.$in,
+//@            key CH:sent<, key CH:rcvd<, key CHV:<, w.$nodes, w.$dispatched, w.$freed, w.tickers, w.tickers[**], w.eventLoopSignal, w.errorChan, w.ctx, w.cancel,
+//@            $open(w.eventLoopSignal), $open(w.errorChan), w.$disp, key G:$poolputs, $usercalls, w.$listeners, w.$armed, $spawned, w.$reapers, key G:$tickersLive
+//@   ensures [running]  result == nil && w.status == running
+//@   ensures [ri]       RI_worker(w)
+//@   ensures [reapers]  w.$reapers <= 1
+//@   ensures [one]      w.$disp == 1 && w.pool.List.len == 1 && $len(w.eventLoopSignal) >= 1
+//@   ghost after call funcvalue when w.$listeners > 0: w.$armed := w.$armed + w.$listeners
+//@   ghost after call funcvalue: w.$listeners := 0
+//@   ghost after store ctx: w.$armed := 0
+
+// TunePool: only a running worker can be tuned; the limit becomes withSafeConcurrency(n); growing raises the signal; shrinking (without
+// idle expiry) retires at most old-new idle workers and never goes below the idle minimum that was available.
+//@ func worker.TunePool
+//@   props C14 C18 C02 C03
+//@   requires RI_worker(w) && w.Configs.minIdleWorkerRatio <= 100 && w.concurrency * w.Configs.minIdleWorkerRatio <= MaxUint32
+//@   modifies w.concurrency, $chan(w.eventLoopSignal), $alloc, linkedlist.Node.next, linkedlist.Node.prev, w.pool.List.len, w.pool.List.$at, w.pool.List.$pos, w.pool.List.$in,
+//@            key CH:sent<, key CH:rcvd<, key CHV:<, key G:$poolputs
+//@   ensures [notrunning] old(w.status) != running ==> result == ErrNotRunningWorker && w.concurrency == old(w.concurrency) && w.pool.List.len == old(w.pool.List.len)
+//@   ensures [tuned]      result == nil ==> w.concurrency >= 1 && w.concurrency != old(w.concurrency) && (concurrency >= 1 && concurrency <= MaxUint32 ==> w.concurrency == concurrency)
+//@   ensures [same]       result == ErrSameConcurrency ==> w.concurrency == old(w.concurrency) && w.pool.List.len == old(w.pool.List.len)
+//@   ensures [grow]       result == nil && w.concurrency > old(w.concurrency) ==> $len(w.eventLoopSignal) >= 1 && w.pool.List.len == old(w.pool.List.len)
+//@   ensures [shrink]     result == nil && w.concurrency < old(w.concurrency) ==> w.pool.List.len <= old(w.pool.List.len) && old(w.pool.List.len) - w.pool.List.len <= old(w.concurrency) - w.concurrency
+//@   ensures [minidle]    result == nil && w.concurrency < old(w.concurrency) ==> w.pool.List.len >= min(old(w.pool.List.len), max((w.concurrency * w.Configs.minIdleWorkerRatio) / 100, 1))
+//@   ensures [ri]         RI_worker(w)
+//@   loop 1: invariant [pool] PoolOK(w) && shrinkPoolSize >= 0 && shrinkPoolSize <= oldConcurrency - safeConcurrency && w.pool.List.len <= old(w.pool.List.len)
+//@                              && old(w.pool.List.len) - w.pool.List.len == (oldConcurrency - safeConcurrency) - shrinkPoolSize
+//@   loop 1: invariant [min]  w.pool.List.len >= min(old(w.pool.List.len), minIdleWorkers) && minIdleWorkers == max((w.concurrency * w.Configs.minIdleWorkerRatio) / 100, 1) && w.concurrency == safeConcurrency
+
+// ---------------------------------------------------------------- construction
+// A new worker is Initiated: both channels exist and are open (the signal channel is buffered, so a wake-up cannot be lost), no
+// goroutine has been started, the idle list is empty, the limit is the configured one (>= 1), and ctx/cancel exist iff a context was configured.
+//@ func newWorker
+//@   props C14 C02 C03 C18
+//@   requires wf != nil
+//@   modifies $usercalls, $alloc
+//@   ensures [fresh] $fresh(result) && result.status == initiated && result.$disp == 0 && result.$listeners == 0 && result.$armed == 0 && result.$reapers == 0 && result.curProcessing == 0
+//@   ensures [ri]    RI_worker(result)
+//@   ghost at return: result.$disp := 0
+//@   ghost at return: result.$listeners := 0
+//@   ghost at return: result.$armed := 0
+//@   ghost at return: result.$reapers := 0
+
+//@ func newErrWorker
+//@   props C14 C02 C03 C18
+//@   requires wf != nil
+//@   modifies $usercalls, $alloc
+//@   ensures [fresh] $fresh(result) && result.status == initiated && result.$disp == 0 && result.$listeners == 0 && result.$armed == 0 && result.$reapers == 0 && result.curProcessing == 0
+//@   ensures [ri]    RI_worker(result)
+//@   ghost at return: result.$disp := 0
+//@   ghost at return: result.$listeners := 0
+//@   ghost at return: result.$armed := 0
+//@   ghost at return: result.$reapers := 0
+
+//@ func newResultWorker
+//@   props C14 C02 C03 C18
+//@   requires wf != nil
+//@   modifies $usercalls, $alloc
+//@   ensures [fresh] $fresh(result) && result.status == initiated && result.$disp == 0 && result.$listeners == 0 && result.$armed == 0 && result.$reapers == 0 && result.curProcessing == 0
+//@   ensures [ri]    RI_worker(result)
+//@   ghost at return: result.$disp := 0
+//@   ghost at return: result.$listeners := 0
+//@   ghost at return: result.$armed := 0
+//@   ghost at return: result.$reapers := 0
+
+// The context listener: when the (captured) context is done it calls Stop once -- unless the worker's context has been replaced meanwhile
+// (by Restart): a listener of a replaced context does nothing. This is what allows Restart to forget the listeners it armed ($armed := 0).
+//@ func worker.goListenToContext$1
+//@   props C14
+//@   requires c != nil && $deref(w) != nil && RI_worker($deref(w)) && (forall q ref {$lenOf(q)} :: $lenOf(q) >= 0) && (forall t ref {$tickerStopped[t]} :: $tickerStopped[t] >= 0)
+//@   modifies $deref(w).status, $deref(w).curProcessing, $lenOf, $alloc, linkedlist.Node.next, linkedlist.Node.prev, $deref(w).pool.List.len, $deref(w).pool.List.$at, $deref(w).pool.List.$pos, $deref(w).pool.List.$in,
+//@            key CH:sent<, key CH:rcvd<, key CHV:<, key CH:open<, $deref(w).$nodes, $deref(w).$dispatched, $deref(w).$freed, $deref(w).tickers, $tickerStopped, $deref(w).eventLoopSignal, $deref(w).errorChan,
+//@            $deref(w).$disp, key G:$poolputs, $usercalls, $deref(w).$listeners, $deref(w).$armed
+//@   ensures [current] $deref(w).ctx == c && (old($deref(w).status) == running || old($deref(w).status) == paused) ==> $deref(w).status == stopped
+//@   ensures [stale]   $deref(w).ctx != c ==> $deref(w).status == old($deref(w).status) && $deref(w).eventLoopSignal == old($deref(w).eventLoopSignal) && $deref(w).$disp == old($deref(w).$disp)
+//@   ghost after call invoke.Done: assume result != $deref(w).eventLoopSignal
+
+// ---------------------------------------------------------------- binders (worker_binder.go)
+// Binding a queue registers it exactly once and starts the worker only if it was Initiated; a Running worker stays as it is (start refuses).
+// start() must not be reached from Paused / Stopped (it would report Running on a second dispatcher / on nil channels).
+//@ func workerBinder.handleQueueSubscription
+//@   props C14 C17 C03
+//@   requires wb.worker != nil && wb.worker.metrics != nil && ChanOK(wb.worker.eventLoopSignal)
+//@   modifies $submitted(wb.worker.metrics), $chan(wb.worker.eventLoopSignal)
+//@   ensures [enqueued] action == "enqueued" ==> $submitted(wb.worker.metrics) == old($submitted(wb.worker.metrics)) + 1
+//@                        && (wb.worker.eventLoopSignal != nil && $cap(wb.worker.eventLoopSignal) >= 1 ==> $len(wb.worker.eventLoopSignal) >= 1)
+//@   ensures [other]    action != "enqueued" ==> $submitted(wb.worker.metrics) == old($submitted(wb.worker.metrics)) && $sent(wb.worker.eventLoopSignal) == old($sent(wb.worker.eventLoopSignal))
+
+//@ func workerBinder.WithQueue
+//@   props C14 C15 C02 C18
+//@   requires wb.worker != nil && RI_worker(wb.worker) && len(wb.worker.queues.Manager.items) < MaxInt - 2 && wb.worker.Configs.idleWorkerExpiryDuration >= 0 && len(wb.worker.tickers) < MaxInt && q != nil
+//@   modifies wb.worker.status, $alloc, $spawned, wb.worker.$disp, wb.worker.$reapers, wb.worker.$listeners, wb.worker.$nodes, wb.worker.tickers, wb.worker.tickers[**], key G:$tickersLive, $chan(wb.worker.eventLoopSignal), linkedlist.Node.next, linkedlist.Node.prev, wb.worker.pool.List.len, wb.worker.pool.List.$at, wb.worker.pool.List.$pos, wb.worker.pool.List.$in, wb.worker.queues.Manager.items, wb.worker.queues.Manager.items[**]
+//@   ensures [once]      len(wb.worker.queues.Manager.items) == old(len(wb.worker.queues.Manager.items)) + 1 && wb.worker.queues.Manager.items[old(len(wb.worker.queues.Manager.items))] == q
+//@   ensures [kept]      forall i int :: 0 <= i && i < old(len(wb.worker.queues.Manager.items)) ==> wb.worker.queues.Manager.items[i] == old(wb.worker.queues.Manager.items[i])
+//@   ensures [initiated] old(wb.worker.status) == initiated ==> wb.worker.status == running && wb.worker.$disp == 1
+//@   ensures [otherwise] old(wb.worker.status) != initiated ==> wb.worker.status == old(wb.worker.status) && wb.worker.$disp == old(wb.worker.$disp) && wb.worker.$nodes == old(wb.worker.$nodes)
+//@   ensures [ri]        RI_worker(wb.worker)
+
+//@ func workerBinder.BindQueue
+//@   props C14 C15 C02 C18
+//@   requires wb.worker != nil && RI_worker(wb.worker) && len(wb.worker.queues.Manager.items) < MaxInt - 2 && wb.worker.Configs.idleWorkerExpiryDuration >= 0 && len(wb.worker.tickers) < MaxInt
+//@   modifies wb.worker.status, $alloc, $spawned, wb.worker.$disp, wb.worker.$reapers, wb.worker.$listeners, wb.worker.$nodes, wb.worker.tickers, wb.worker.tickers[**], key G:$tickersLive, $chan(wb.worker.eventLoopSignal), linkedlist.Node.next, linkedlist.Node.prev, wb.worker.pool.List.len, wb.worker.pool.List.$at, wb.worker.pool.List.$pos, wb.worker.pool.List.$in, wb.worker.queues.Manager.items, wb.worker.queues.Manager.items[**]
+//@   ensures [once]      len(wb.worker.queues.Manager.items) == old(len(wb.worker.queues.Manager.items)) + 1
+//@   ensures [kept]      forall i int :: 0 <= i && i < old(len(wb.worker.queues.Manager.items)) ==> wb.worker.queues.Manager.items[i] == old(wb.worker.queues.Manager.items[i])
+//@   ensures [initiated] old(wb.worker.status) == initiated ==> wb.worker.status == running && wb.worker.$disp == 1
+//@   ensures [otherwise] old(wb.worker.status) != initiated ==> wb.worker.status == old(wb.worker.status) && wb.worker.$disp == old(wb.worker.$disp) && wb.worker.$nodes == old(wb.worker.$nodes)
+//@   ensures [ri]        RI_worker(wb.worker)
+
+//@ func workerBinder.WithPriorityQueue
+//@   props C14 C15 C02 C18
+//@   requires wb.worker != nil && RI_worker(wb.worker) && len(wb.worker.queues.Manager.items) < MaxInt - 2 && wb.worker.Configs.idleWorkerExpiryDuration >= 0 && len(wb.worker.tickers) < MaxInt && pq != nil
+//@   modifies wb.worker.status, $alloc, $spawned, wb.worker.$disp, wb.worker.$reapers, wb.worker.$listeners, wb.worker.$nodes, wb.worker.tickers, wb.worker.tickers[**], key G:$tickersLive, $chan(wb.worker.eventLoopSignal), linkedlist.Node.next, linkedlist.Node.prev, wb.worker.pool.List.len, wb.worker.pool.List.$at, wb.worker.pool.List.$pos, wb.worker.pool.List.$in, wb.worker.queues.Manager.items, wb.worker.queues.Manager.items[**]
+//@   ensures [once]      len(wb.worker.queues.Manager.items) == old(len(wb.worker.queues.Manager.items)) + 1 && wb.worker.queues.Manager.items[old(len(wb.worker.queues.Manager.items))] == pq
+//@   ensures [kept]      forall i int :: 0 <= i && i < old(len(wb.worker.queues.Manager.items)) ==> wb.worker.queues.Manager.items[i] == old(wb.worker.queues.Manager.items[i])
+//@   ensures [initiated] old(wb.worker.status) == initiated ==> wb.worker.status == running && wb.worker.$disp == 1
+//@   ensures [otherwise] old(wb.worker.status) != initiated ==> wb.worker.status == old(wb.worker.status) && wb.worker.$disp == old(wb.worker.$disp) && wb.worker.$nodes == old(wb.worker.$nodes)
+//@   ensures [ri]        RI_worker(wb.worker)
+
+//@ func workerBinder.BindPriorityQueue
+//@   props C14 C15 C02 C18
+//@   requires wb.worker != nil && RI_worker(wb.worker) && len(wb.worker.queues.Manager.items) < MaxInt - 2 && wb.worker.Configs.idleWorkerExpiryDuration >= 0 && len(wb.worker.tickers) < MaxInt
+//@   modifies wb.worker.status, $alloc, $spawned, wb.worker.$disp, wb.worker.$reapers, wb.worker.$listeners, wb.worker.$nodes, wb.worker.tickers, wb.worker.tickers[**], key G:$tickersLive, $chan(wb.worker.eventLoopSignal), linkedlist.Node.next, linkedlist.Node.prev, wb.worker.pool.List.len, wb.worker.pool.List.$at, wb.worker.pool.List.$pos, wb.worker.pool.List.$in, wb.worker.queues.Manager.items, wb.worker.queues.Manager.items[**]
+//@   ensures [once]      len(wb.worker.queues.Manager.items) == old(len(wb.worker.queues.Manager.items)) + 1
+//@   ensures [kept]      forall i int :: 0 <= i && i < old(len(wb.worker.queues.Manager.items)) ==> wb.worker.queues.Manager.items[i] == old(wb.worker.queues.Manager.items[i])
+//@   ensures [initiated] old(wb.worker.status) == initiated ==> wb.worker.status == running && wb.worker.$disp == 1
+//@   ensures [otherwise] old(wb.worker.status) != initiated ==> wb.worker.status == old(wb.worker.status) && wb.worker.$disp == old(wb.worker.$disp) && wb.worker.$nodes == old(wb.worker.$nodes)
+//@   ensures [ri]        RI_worker(wb.worker)
+
+//@ func errWorkerBinder.WithQueue
+//@   props C14 C15 C02 C18
+//@   requires ewb.worker != nil && RI_worker(ewb.worker) && len(ewb.worker.queues.Manager.items) < MaxInt - 2 && ewb.worker.Configs.idleWorkerExpiryDuration >= 0 && len(ewb.worker.tickers) < MaxInt && q != nil
+//@   modifies ewb.worker.status, $alloc, $spawned, ewb.worker.$disp, ewb.worker.$reapers, ewb.worker.$listeners, ewb.worker.$nodes, ewb.worker.tickers, ewb.worker.tickers[**], key G:$tickersLive, $chan(ewb.worker.eventLoopSignal), linkedlist.Node.next, linkedlist.Node.prev, ewb.worker.pool.List.len, ewb.worker.pool.List.$at, ewb.worker.pool.List.$pos, ewb.worker.pool.List.$in, ewb.worker.queues.Manager.items, ewb.worker.queues.Manager.items[**]
+//@   ensures [once]      len(ewb.worker.queues.Manager.items) == old(len(ewb.worker.queues.Manager.items)) + 1 && ewb.worker.queues.Manager.items[old(len(ewb.worker.queues.Manager.items))] == q
+//@   ensures [kept]      forall i int :: 0 <= i && i < old(len(ewb.worker.queues.Manager.items)) ==> ewb.worker.queues.Manager.items[i] == old(ewb.worker.queues.Manager.items[i])
+//@   ensures [initiated] old(ewb.worker.status) == initiated ==> ewb.worker.status == running && ewb.worker.$disp == 1
+//@   ensures [otherwise] old(ewb.worker.status) != initiated ==> ewb.worker.status == old(ewb.worker.status) && ewb.worker.$disp == old(ewb.worker.$disp) && ewb.worker.$nodes == old(ewb.worker.$nodes)
+//@   ensures [ri]        RI_worker(ewb.worker)
+
+//@ func errWorkerBinder.BindQueue
+//@   props C14 C15 C02 C18
+//@   requires ewb.worker != nil && RI_worker(ewb.worker) && len(ewb.worker.queues.Manager.items) < MaxInt - 2 && ewb.worker.Configs.idleWorkerExpiryDuration >= 0 && len(ewb.worker.tickers) < MaxInt
+//@   modifies ewb.worker.status, $alloc, $spawned, ewb.worker.$disp, ewb.worker.$reapers, ewb.worker.$listeners, ewb.worker.$nodes, ewb.worker.tickers, ewb.worker.tickers[**], key G:$tickersLive, $chan(ewb.worker.eventLoopSignal), linkedlist.Node.next, linkedlist.Node.prev, ewb.worker.pool.List.len, ewb.worker.pool.List.$at, ewb.worker.pool.List.$pos, ewb.worker.pool.List.$in, ewb.worker.queues.Manager.items, ewb.worker.queues.Manager.items[**]
+//@   ensures [once]      len(ewb.worker.queues.Manager.items) == old(len(ewb.worker.queues.Manager.items)) + 1
+//@   ensures [kept]      forall i int :: 0 <= i && i < old(len(ewb.worker.queues.Manager.items)) ==> ewb.worker.queues.Manager.items[i] == old(ewb.worker.queues.Manager.items[i])
+//@   ensures [initiated] old(ewb.worker.status) == initiated ==> ewb.worker.status == running && ewb.worker.$disp == 1
+//@   ensures [otherwise] old(ewb.worker.status) != initiated ==> ewb.worker.status == old(ewb.worker.status) && ewb.worker.$disp == old(ewb.worker.$disp) && ewb.worker.$nodes == old(ewb.worker.$nodes)
+//@   ensures [ri]        RI_worker(ewb.worker)
+
+//@ func errWorkerBinder.WithPriorityQueue
+//@   props C14 C15 C02 C18
+//@   requires ewb.worker != nil && RI_worker(ewb.worker) && len(ewb.worker.queues.Manager.items) < MaxInt - 2 && ewb.worker.Configs.idleWorkerExpiryDuration >= 0 && len(ewb.worker.tickers) < MaxInt && pq != nil
+//@   modifies ewb.worker.status, $alloc, $spawned, ewb.worker.$disp, ewb.worker.$reapers, ewb.worker.$listeners, ewb.worker.$nodes, ewb.worker.tickers, ewb.worker.tickers[**], key G:$tickersLive, $chan(ewb.worker.eventLoopSignal), linkedlist.Node.next, linkedlist.Node.prev, ewb.worker.pool.List.len, ewb.worker.pool.List.$at, ewb.worker.pool.List.$pos, ewb.worker.pool.List.$in, ewb.worker.queues.Manager.items, ewb.worker.queues.Manager.items[**]
+//@   ensures [once]      len(ewb.worker.queues.Manager.items) == old(len(ewb.worker.queues.Manager.items)) + 1 && ewb.worker.queues.Manager.items[old(len(ewb.worker.queues.Manager.items))] == pq
+//@   ensures [kept]      forall i int :: 0 <= i && i < old(len(ewb.worker.queues.Manager.items)) ==> ewb.worker.queues.Manager.items[i] == old(ewb.worker.queues.Manager.items[i])
+//@   ensures [initiated] old(ewb.worker.status) == initiated ==> ewb.worker.status == running && ewb.worker.$disp == 1
+//@   ensures [otherwise] old(ewb.worker.status) != initiated ==> ewb.worker.status == old(ewb.worker.status) && ewb.worker.$disp == old(ewb.worker.$disp) && ewb.worker.$nodes == old(ewb.worker.$nodes)
+//@   ensures [ri]        RI_worker(ewb.worker)
+
+//@ func errWorkerBinder.BindPriorityQueue
+//@   props C14 C15 C02 C18
+//@   requires ewb.worker != nil && RI_worker(ewb.worker) && len(ewb.worker.queues.Manager.items) < MaxInt - 2 && ewb.worker.Configs.idleWorkerExpiryDuration >= 0 && len(ewb.worker.tickers) < MaxInt
+//@   modifies ewb.worker.status, $alloc, $spawned, ewb.worker.$disp, ewb.worker.$reapers, ewb.worker.$listeners, ewb.worker.$nodes, ewb.worker.tickers, ewb.worker.tickers[**], key G:$tickersLive, $chan(ewb.worker.eventLoopSignal), linkedlist.Node.next, linkedlist.Node.prev, ewb.worker.pool.List.len, ewb.worker.pool.List.$at, ewb.worker.pool.List.$pos, ewb.worker.pool.List.$in, ewb.worker.queues.Manager.items, ewb.worker.queues.Manager.items[**]
+//@   ensures [once]      len(ewb.worker.queues.Manager.items) == old(len(ewb.worker.queues.Manager.items)) + 1
+//@   ensures [kept]      forall i int :: 0 <= i && i < old(len(ewb.worker.queues.Manager.items)) ==> ewb.worker.queues.Manager.items[i] == old(ewb.worker.queues.Manager.items[i])
+//@   ensures [initiated] old(ewb.worker.status) == initiated ==> ewb.worker.status == running && ewb.worker.$disp == 1
+//@   ensures [otherwise] old(ewb.worker.status) != initiated ==> ewb.worker.status == old(ewb.worker.status) && ewb.worker.$disp == old(ewb.worker.$disp) && ewb.worker.$nodes == old(ewb.worker.$nodes)
+//@   ensures [ri]        RI_worker(ewb.worker)
+
+//@ func resultWorkerBinder.WithQueue
+//@   props C14 C15 C02 C18
+//@   requires rwb.worker != nil && RI_worker(rwb.worker) && len(rwb.worker.queues.Manager.items) < MaxInt - 2 && rwb.worker.Configs.idleWorkerExpiryDuration >= 0 && len(rwb.worker.tickers) < MaxInt && q != nil
+//@   modifies rwb.worker.status, $alloc, $spawned, rwb.worker.$disp, rwb.worker.$reapers, rwb.worker.$listeners, rwb.worker.$nodes, rwb.worker.tickers, rwb.worker.tickers[**], key G:$tickersLive, $chan(rwb.worker.eventLoopSignal), linkedlist.Node.next, linkedlist.Node.prev, rwb.worker.pool.List.len, rwb.worker.pool.List.$at, rwb.worker.pool.List.$pos, rwb.worker.pool.List.$in, rwb.worker.queues.Manager.items, rwb.worker.queues.Manager.items[**]
+//@   ensures [once]      len(rwb.worker.queues.Manager.items) == old(len(rwb.worker.queues.Manager.items)) + 1 && rwb.worker.queues.Manager.items[old(len(rwb.worker.queues.Manager.items))] == q
+//@   ensures [kept]      forall i int :: 0 <= i && i < old(len(rwb.worker.queues.Manager.items)) ==> rwb.worker.queues.Manager.items[i] == old(rwb.worker.queues.Manager.items[i])
+//@   ensures [initiated] old(rwb.worker.status) == initiated ==> rwb.worker.status == running && rwb.worker.$disp == 1
+//@   ensures [otherwise] old(rwb.worker.status) != initiated ==> rwb.worker.status == old(rwb.worker.status) && rwb.worker.$disp == old(rwb.worker.$disp) && rwb.worker.$nodes == old(rwb.worker.$nodes)
+//@   ensures [ri]        RI_worker(rwb.worker)
+
+//@ func resultWorkerBinder.BindQueue
+//@   props C14 C15 C02 C18
+//@   requires rwb.worker != nil && RI_worker(rwb.worker) && len(rwb.worker.queues.Manager.items) < MaxInt - 2 && rwb.worker.Configs.idleWorkerExpiryDuration >= 0 && len(rwb.worker.tickers) < MaxInt
+//@   modifies rwb.worker.status, $alloc, $spawned, rwb.worker.$disp, rwb.worker.$reapers, rwb.worker.$listeners, rwb.worker.$nodes, rwb.worker.tickers, rwb.worker.tickers[**], key G:$tickersLive, $chan(rwb.worker.eventLoopSignal), linkedlist.Node.next, linkedlist.Node.prev, rwb.worker.pool.List.len, rwb.worker.pool.List.$at, rwb.worker.pool.List.$pos, rwb.worker.pool.List.$in, rwb.worker.queues.Manager.items, rwb.worker.queues.Manager.items[**]
+//@   ensures [once]      len(rwb.worker.queues.Manager.items) == old(len(rwb.worker.queues.Manager.items)) + 1
+//@   ensures [kept]      forall i int :: 0 <= i && i < old(len(rwb.worker.queues.Manager.items)) ==> rwb.worker.queues.Manager.items[i] == old(rwb.worker.queues.Manager.items[i])
+//@   ensures [initiated] old(rwb.worker.status) == initiated ==> rwb.worker.status == running && rwb.worker.$disp == 1
+//@   ensures [otherwise] old(rwb.worker.status) != initiated ==> rwb.worker.status == old(rwb.worker.status) && rwb.worker.$disp == old(rwb.worker.$disp) && rwb.worker.$nodes == old(rwb.worker.$nodes)
+//@   ensures [ri]        RI_worker(rwb.worker)
+
+//@ func resultWorkerBinder.WithPriorityQueue
+//@   props C14 C15 C02 C18
+//@   requires rwb.worker != nil && RI_worker(rwb.worker) && len(rwb.worker.queues.Manager.items) < MaxInt - 2 && rwb.worker.Configs.idleWorkerExpiryDuration >= 0 && len(rwb.worker.tickers) < MaxInt && pq != nil
+//@   modifies rwb.worker.status, $alloc, $spawned, rwb.worker.$disp, rwb.worker.$reapers, rwb.worker.$listeners, rwb.worker.$nodes, rwb.worker.tickers, rwb.worker.tickers[**], key G:$tickersLive, $chan(rwb.worker.eventLoopSignal), linkedlist.Node.next, linkedlist.Node.prev, rwb.worker.pool.List.len, rwb.worker.pool.List.$at, rwb.worker.pool.List.$pos, rwb.worker.pool.List.$in, rwb.worker.queues.Manager.items, rwb.worker.queues.Manager.items[**]
+//@   ensures [once]      len(rwb.worker.queues.Manager.items) == old(len(rwb.worker.queues.Manager.items)) + 1 && rwb.worker.queues.Manager.items[old(len(rwb.worker.queues.Manager.items))] == pq
+//@   ensures [kept]      forall i int :: 0 <= i && i < old(len(rwb.worker.queues.Manager.items)) ==> rwb.worker.queues.Manager.items[i] == old(rwb.worker.queues.Manager.items[i])
+//@   ensures [initiated] old(rwb.worker.status) == initiated ==> rwb.worker.status == running && rwb.worker.$disp == 1
+//@   ensures [otherwise] old(rwb.worker.status) != initiated ==> rwb.worker.status == old(rwb.worker.status) && rwb.worker.$disp == old(rwb.worker.$disp) && rwb.worker.$nodes == old(rwb.worker.$nodes)
+//@   ensures [ri]        RI_worker(rwb.worker)
+
+//@ func resultWorkerBinder.BindPriorityQueue
+//@   props C14 C15 C02 C18
+//@   requires rwb.worker != nil && RI_worker(rwb.worker) && len(rwb.worker.queues.Manager.items) < MaxInt - 2 && rwb.worker.Configs.idleWorkerExpiryDuration >= 0 && len(rwb.worker.tickers) < MaxInt
+//@   modifies rwb.worker.status, $alloc, $spawned, rwb.worker.$disp, rwb.worker.$reapers, rwb.worker.$listeners, rwb.worker.$nodes, rwb.worker.tickers, rwb.worker.tickers[**], key G:$tickersLive, $chan(rwb.worker.eventLoopSignal), linkedlist.Node.next, linkedlist.Node.prev, rwb.worker.pool.List.len, rwb.worker.pool.List.$at, rwb.worker.pool.List.$pos, rwb.worker.pool.List.$in, rwb.worker.queues.Manager.items, rwb.worker.queues.Manager.items[**]
+//@   ensures [once]      len(rwb.worker.queues.Manager.items) == old(len(rwb.worker.queues.Manager.items)) + 1
+//@   ensures [kept]      forall i int :: 0 <= i && i < old(len(rwb.worker.queues.Manager.items)) ==> rwb.worker.queues.Manager.items[i] == old(rwb.worker.queues.Manager.items[i])
+//@   ensures [initiated] old(rwb.worker.status) == initiated ==> rwb.worker.status == running && rwb.worker.$disp == 1
+//@   ensures [otherwise] old(rwb.worker.status) != initiated ==> rwb.worker.status == old(rwb.worker.status) && rwb.worker.$disp == old(rwb.worker.$disp) && rwb.worker.$nodes == old(rwb.worker.$nodes)
+//@   ensures [ri]        RI_worker(rwb.worker)
+
+//@ func workerBinder.WithPersistentQueue
+//@   props C14 C15 C02 C18
+//@   requires wb.worker != nil && RI_worker(wb.worker) && len(wb.worker.queues.Manager.items) < MaxInt - 2 && wb.worker.Configs.idleWorkerExpiryDuration >= 0 && len(wb.worker.tickers) < MaxInt && pq != nil
+//@   modifies wb.worker.status, $alloc, $spawned, wb.worker.$disp, wb.worker.$reapers, wb.worker.$listeners, wb.worker.$nodes, wb.worker.tickers, wb.worker.tickers[**], key G:$tickersLive, $chan(wb.worker.eventLoopSignal), linkedlist.Node.next, linkedlist.Node.prev, wb.worker.pool.List.len, wb.worker.pool.List.$at, wb.worker.pool.List.$pos, wb.worker.pool.List.$in, wb.worker.queues.Manager.items, wb.worker.queues.Manager.items[**]
+//@   ensures [once]      len(wb.worker.queues.Manager.items) == old(len(wb.worker.queues.Manager.items)) + 1 && wb.worker.queues.Manager.items[old(len(wb.worker.queues.Manager.items))] == pq
+//@   ensures [kept]      forall i int :: 0 <= i && i < old(len(wb.worker.queues.Manager.items)) ==> wb.worker.queues.Manager.items[i] == old(wb.worker.queues.Manager.items[i])
+//@   ensures [initiated] old(wb.worker.status) == initiated ==> wb.worker.status == running && wb.worker.$disp == 1
+//@   ensures [otherwise] old(wb.worker.status) != initiated ==> wb.worker.status == old(wb.worker.status) && wb.worker.$disp == old(wb.worker.$disp) && wb.worker.$nodes == old(wb.worker.$nodes)
+//@   ensures [ri]        RI_worker(wb.worker)
+
+//@ func workerBinder.WithPersistentPriorityQueue
+//@   props C14 C15 C02 C18
+//@   requires wb.worker != nil && RI_worker(wb.worker) && len(wb.worker.queues.Manager.items) < MaxInt - 2 && wb.worker.Configs.idleWorkerExpiryDuration >= 0 && len(wb.worker.tickers) < MaxInt && pq != nil && len(wb.worker.queues.Manager.items) < MaxInt - 1
+//@   modifies wb.worker.status, $alloc, $spawned, wb.worker.$disp, wb.worker.$reapers, wb.worker.$listeners, wb.worker.$nodes, wb.worker.tickers, wb.worker.tickers[**], key G:$tickersLive, $chan(wb.worker.eventLoopSignal), linkedlist.Node.next, linkedlist.Node.prev, wb.worker.pool.List.len, wb.worker.pool.List.$at, wb.worker.pool.List.$pos, wb.worker.pool.List.$in, wb.worker.queues.Manager.items, wb.worker.queues.Manager.items[**]
+//@   ensures [once]      len(wb.worker.queues.Manager.items) == old(len(wb.worker.queues.Manager.items)) + 1 && wb.worker.queues.Manager.items[old(len(wb.worker.queues.Manager.items))] == pq
+//@   ensures [kept]      forall i int :: 0 <= i && i < old(len(wb.worker.queues.Manager.items)) ==> wb.worker.queues.Manager.items[i] == old(wb.worker.queues.Manager.items[i])
+//@   ensures [initiated] old(wb.worker.status) == initiated ==> wb.worker.status == running && wb.worker.$disp == 1
+//@   ensures [otherwise] old(wb.worker.status) != initiated ==> wb.worker.status == old(wb.worker.status) && wb.worker.$disp == old(wb.worker.$disp) && wb.worker.$nodes == old(wb.worker.$nodes)
+//@   ensures [ri]        RI_worker(wb.worker)
+
+//@ func workerBinder.WithDistributedQueue
+//@   props C14 C15 C02 C18
+//@   requires wb.worker != nil && RI_worker(wb.worker) && len(wb.worker.queues.Manager.items) < MaxInt - 2 && wb.worker.Configs.idleWorkerExpiryDuration >= 0 && len(wb.worker.tickers) < MaxInt && dq != nil
+//@   modifies wb.worker.status, $alloc, $spawned, wb.worker.$disp, wb.worker.$reapers, wb.worker.$listeners, wb.worker.$nodes, wb.worker.tickers, wb.worker.tickers[**], key G:$tickersLive, $chan(wb.worker.eventLoopSignal), linkedlist.Node.next, linkedlist.Node.prev, wb.worker.pool.List.len, wb.worker.pool.List.$at, wb.worker.pool.List.$pos, wb.worker.pool.List.$in, wb.worker.queues.Manager.items, wb.worker.queues.Manager.items[**], $subs(dq)
+//@   ensures [once]      len(wb.worker.queues.Manager.items) == old(len(wb.worker.queues.Manager.items)) + 1 && wb.worker.queues.Manager.items[old(len(wb.worker.queues.Manager.items))] == dq
+//@   ensures [kept]      forall i int :: 0 <= i && i < old(len(wb.worker.queues.Manager.items)) ==> wb.worker.queues.Manager.items[i] == old(wb.worker.queues.Manager.items[i])
+//@   ensures [initiated] old(wb.worker.status) == initiated ==> wb.worker.status == running && wb.worker.$disp == 1
+//@   ensures [otherwise] old(wb.worker.status) != initiated ==> wb.worker.status == old(wb.worker.status) && wb.worker.$disp == old(wb.worker.$disp) && wb.worker.$nodes == old(wb.worker.$nodes)
+//@   ensures [subscribed] $subs(dq) == old($subs(dq)) + 1
+//@   ensures [ri]        RI_worker(wb.worker)
+
+//@ func workerBinder.WithDistributedPriorityQueue
+//@   props C14 C15 C02 C18
+//@   requires wb.worker != nil && RI_worker(wb.worker) && len(wb.worker.queues.Manager.items) < MaxInt - 2 && wb.worker.Configs.idleWorkerExpiryDuration >= 0 && len(wb.worker.tickers) < MaxInt && dpq != nil
+//@   modifies wb.worker.status, $alloc, $spawned, wb.worker.$disp, wb.worker.$reapers, wb.worker.$listeners, wb.worker.$nodes, wb.worker.tickers, wb.worker.tickers[**], key G:$tickersLive, $chan(wb.worker.eventLoopSignal), linkedlist.Node.next, linkedlist.Node.prev, wb.worker.pool.List.len, wb.worker.pool.List.$at, wb.worker.pool.List.$pos, wb.worker.pool.List.$in, wb.worker.queues.Manager.items, wb.worker.queues.Manager.items[**], $subs(dpq)
+//@   ensures [once]      len(wb.worker.queues.Manager.items) == old(len(wb.worker.queues.Manager.items)) + 1 && wb.worker.queues.Manager.items[old(len(wb.worker.queues.Manager.items))] == dpq
+//@   ensures [kept]      forall i int :: 0 <= i && i < old(len(wb.worker.queues.Manager.items)) ==> wb.worker.queues.Manager.items[i] == old(wb.worker.queues.Manager.items[i])
+//@   ensures [initiated] old(wb.worker.status) == initiated ==> wb.worker.status == running && wb.worker.$disp == 1
+//@   ensures [otherwise] old(wb.worker.status) != initiated ==> wb.worker.status == old(wb.worker.status) && wb.worker.$disp == old(wb.worker.$disp) && wb.worker.$nodes == old(wb.worker.$nodes)
+//@   ensures [subscribed] $subs(dpq) == old($subs(dpq)) + 1
+//@   ensures [ri]        RI_worker(wb.worker)
+
+//@ func newQueues
+//@   props C14
+//@   modifies $alloc
+//@   ensures result != nil && $typeof(result) == $tid(*workerBinder) && $as(*workerBinder, result).worker == worker
+//@ func newErrQueues
+//@   props C14
+//@   modifies $alloc
+//@   ensures result != nil && $typeof(result) == $tid(*errWorkerBinder) && $as(*errWorkerBinder, result).worker == worker
+//@ func newResultQueues
+//@   props C14
+//@   modifies $alloc
+//@   ensures result != nil && $typeof(result) == $tid(*resultWorkerBinder) && $as(*resultWorkerBinder, result).worker == worker
+//@ func NewDistributedQueue
+//@   props C12
+//@   modifies $alloc
+//@   ensures result != nil && $typeof(result) == $tid(*distributedQueue) && $as(*distributedQueue, result).IDistributedQueue == internalQueue
+//@ func NewDistributedPriorityQueue
+//@   props C12
+//@   modifies $alloc
+//@   ensures result != nil && $typeof(result) == $tid(*distributedPriorityQueue) && $as(*distributedPriorityQueue, result).IDistributedPriorityQueue == internalQueue
+
+// ---------------------------------------------------------------- the idle-worker reaper (one run per tick)
+// On every tick: if more than the minimum are idle, the idle nodes beyond the minimum that have expired are removed from the list, stopped
+// and cached. A node is stopped only after it was seen linked into the list (evidence of idleness) -- never a node taken by the dispatcher.
+//@ func worker.goRemoveIdleWorkers$1
+//@   props C18 C01 C03
+//@   requires $deref(ticker) != nil && $deref(w) != nil && PoolOK($deref(w)) && $deref(w).Configs.minIdleWorkerRatio <= 100 && $deref(w).concurrency * $deref(w).Configs.minIdleWorkerRatio <= MaxUint32
+//@   requires forall n *linkedlist.Node[pool.Node[JobType]] {n.Value.lastUsed} :: n.Value.lastUsed == nil || $typeof(n.Value.lastUsed) == $tid(time.Time)
+//@   modifies $alloc, linkedlist.Node.next, linkedlist.Node.prev, $deref(w).pool.List.len, $deref(w).pool.List.$at, $deref(w).pool.List.$pos, $deref(w).pool.List.$in,
+//@            key CH:sent<, key CH:rcvd<, key CHV:<, key CH:open<, key G:$poolputs
+//@   loop 1: invariant [outer] PoolOK($deref(w))
+//@   loop 2: invariant [inner] PoolOK($deref(w)) && 0 <= rangeindex + 1 && rangeindex + 1 <= len($ranged)
+//@   loop 2: invariant [nodes] (forall m int :: 0 <= m && m < len($ranged) ==> $ranged[m] != nil && $alloc($ranged[m])) && (forall a int, b int {$ranged[a], $ranged[b]} :: 0 <= a && a < b && b < len($ranged) ==> $ranged[a] != $ranged[b])
+//@   loop 2: invariant [rest]  forall m int :: rangeindex + 1 <= m && m < len($ranged) ==> $deref(w).pool.List.$in[$ranged[m]] && $ranged[m] != $addr($deref(w).pool.List.root)
+//@   ghost before call pool.Node.GetLastUsed: $evidence := false
+//@   ghost after call linkedlist.Node.Next when result != nil: $evidence := true
+//@   ghost after call linkedlist.Node.Prev when result != nil: $evidence := true
+//@   assert [stop-only-idle] before call pool.Node.Stop: $evidence
